@@ -21,7 +21,6 @@ import (
 	"encoding/binary"
 	"fmt"
 	"sort"
-	"sync"
 
 	"github.com/lindb/roaring"
 
@@ -58,22 +57,19 @@ type MetricReader interface {
 	// Load loads the data from sst file, then returns the file metric scanner.
 	Load(ctx *flow.DataLoadContext) flow.DataLoader
 	// readSeriesData reads series data from file by seriesEntryBlock
-	readSeriesData(ctx *flow.DataLoadContext, seriesIdx uint16, seriesEntryBlock []byte)
+	readSeriesData(ctx *flow.DataLoadContext, readFieldIndexes []int, seriesIdx uint16, seriesEntryBlock []byte)
 }
 
 // metricReader implements MetricReader interface that reads metric block
 type metricReader struct {
-	highKeyOffsets   *encoding.FixedOffsetDecoder
-	seriesIDs        *roaring.Bitmap
-	path             string
-	metricBlock      []byte
-	seriesBucket     []byte
-	fields           field.Metas
-	readFieldIndexes []int
-	prepareOnce      sync.Once
-	foundFields      bool
-	crc32CheckSum    uint32
-	timeRange        timeutil.SlotRange
+	highKeyOffsets *encoding.FixedOffsetDecoder
+	seriesIDs      *roaring.Bitmap
+	path           string
+	metricBlock    []byte
+	seriesBucket   []byte
+	fields         field.Metas
+	crc32CheckSum  uint32
+	timeRange      timeutil.SlotRange
 }
 
 // NewReader creates a metric block metricReader
@@ -108,27 +104,25 @@ func (r *metricReader) GetTimeRange() timeutil.SlotRange {
 	return r.timeRange
 }
 
-// prepare the field aggregator based on query condition.
-// NOTE: a reader serves one query, but the data load tasks of all series containers of that query
-// call Load(=>prepare) concurrently while other tasks already read readFieldIndexes: build it once.
-func (r *metricReader) prepare(fields field.Metas) (found bool) {
-	r.prepareOnce.Do(func() {
-		fieldMap := make(map[field.ID]int)
-		for idx, fieldMeta := range r.fields {
-			fieldMap[fieldMeta.ID] = idx
+// prepare builds the table which maps the fields of the query to the fields of the metric block.
+// NOTE: the data load tasks of all series containers of a query share the reader and call Load(=>prepare)
+// concurrently while tasks that were loaded before read their table, so the table belongs to the loader
+// and isn't kept in the reader.
+func (r *metricReader) prepare(fields field.Metas) (readFieldIndexes []int, found bool) {
+	fieldMap := make(map[field.ID]int)
+	for idx, fieldMeta := range r.fields {
+		fieldMap[fieldMeta.ID] = idx
+	}
+	readFieldIndexes = make([]int, len(fields))
+	for idx, f := range fields { // sort by field ids
+		if fieldIdx, ok := fieldMap[f.ID]; ok {
+			readFieldIndexes[idx] = fieldIdx
+			found = true
+		} else {
+			readFieldIndexes[idx] = fieldNotFound
 		}
-		readFieldIndexes := make([]int, len(fields))
-		for idx, f := range fields { // sort by field ids
-			if fieldIdx, ok := fieldMap[f.ID]; ok {
-				readFieldIndexes[idx] = fieldIdx
-				r.foundFields = true
-			} else {
-				readFieldIndexes[idx] = fieldNotFound
-			}
-		}
-		r.readFieldIndexes = readFieldIndexes
-	})
-	return r.foundFields
+	}
+	return
 }
 
 // Load loads the data from sst file, then returns the file metric scanner.
@@ -165,23 +159,24 @@ func (r *metricReader) Load(ctx *flow.DataLoadContext) flow.DataLoader {
 		return nil
 	}
 
-	if !r.prepare(ctx.ShardExecuteCtx.StorageExecuteCtx.Fields) {
+	readFieldIndexes, found := r.prepare(ctx.ShardExecuteCtx.StorageExecuteCtx.Fields)
+	if !found {
 		// field not found
 		return nil
 	}
 	seriesEntriesBlock := level3Block[:lowKeyOffsetsAt]
 	// must use lowContainer from store, because get series index based on container
-	return newMetricLoader(r, seriesEntriesBlock, lowContainer, lowKeyOffsetsDecoder)
+	return newMetricLoader(r, readFieldIndexes, seriesEntriesBlock, lowContainer, lowKeyOffsetsDecoder)
 }
 
 // readSeriesData reads series data from file by given position.
-func (r *metricReader) readSeriesData(ctx *flow.DataLoadContext, seriesIdx uint16, seriesEntryBlock []byte) {
+func (r *metricReader) readSeriesData(ctx *flow.DataLoadContext, readFieldIndexes []int, seriesIdx uint16, seriesEntryBlock []byte) {
 	decoder := ctx.Decoder
 	fieldCount := r.fields.Len()
 	if fieldCount == 1 {
 		// metric has one field, just read the data,
 		// but the field isn't always the first field of the query(readFieldIndexes is built by prepare)
-		for queryIdx, readIdx := range r.readFieldIndexes {
+		for queryIdx, readIdx := range readFieldIndexes {
 			if readIdx == fieldNotFound {
 				continue
 			}
@@ -201,7 +196,7 @@ func (r *metricReader) readSeriesData(ctx *flow.DataLoadContext, seriesIdx uint1
 	fieldOffsetsDecoder := encoding.GetFixedOffsetDecoder()
 	_, _ = fieldOffsetsDecoder.Unmarshal(seriesEntryBlock[fieldOffsetsAt:])
 
-	for queryIdx, readIdx := range r.readFieldIndexes {
+	for queryIdx, readIdx := range readFieldIndexes {
 		if readIdx == fieldNotFound {
 			continue
 		}
